@@ -11,10 +11,16 @@ Definition c_1_12d : K F := klit F 6004799503160661 72057594037927936.   (* Scal
 Definition c_1_120d : K F := klit F 4803839602528529 576460752303423488. (* Scalar(1. / 120.) *)
 Definition c_1_720d : K F := klit F 6405119470038039 4611686018427387904. (* Scalar(1. / 720.) *)
 Definition c_1_60d : K F := klit F 4803839602528529 288230376151711744.   (* Scalar(1. / 60.) *)
+Definition c_1_3d : K F := klit F 6004799503160661 18014398509481984.    (* Scalar(1. / 3.)  *)
+Definition c_1_30d : K F := klit F 4803839602528529 144115188075855872.  (* Scalar(1. / 30.) *)
+Definition c_1_8d : K F := klit F 1 8.                                   (* Scalar(1. / 8.)  *)
+Definition c_1_10d : K F := klit F 3602879701896397 36028797018963968.   (* Scalar(1. / 10.) *)
+Definition c_1_240d : K F := klit F 4803839602528529 1152921504606846976. (* Scalar(1. / 240.) *)
 Definition c_pi : K F := klit F 884279719003555 281474976710656.         (* MANIF_PI as a double *)
 Definition c_2pi : K F := klit F 884279719003555 140737488355328.        (* 2. * MANIF_PI *)
 Definition eps_double : K F := klit F 25 1125899906842624.               (* 100 * 2^-52 *)
 Definition eps_float : K F := klit F 25 2097152.                         (* 100 * 2^-23 *)
 End C.
+Arguments c_1_3d {F}. Arguments c_1_30d {F}. Arguments c_1_8d {F}. Arguments c_1_10d {F}. Arguments c_1_240d {F}.
 Arguments c_half {F}. Arguments c_1_6d {F}. Arguments c_1_24d {F}. Arguments c_1_12d {F}. Arguments c_1_120d {F}.
 Arguments c_1_720d {F}. Arguments c_1_60d {F}. Arguments c_pi {F}. Arguments c_2pi {F}. Arguments eps_double {F}. Arguments eps_float {F}.
